@@ -379,6 +379,10 @@ ok('reformat-every-module-with-ast-unparse', [(f, ('unparse',), None) for f in A
 br('C16', 'seed-restart-syncs-only-after-wait', (PE, "        if not self.wait(timeout=timeout):\n            self.terminate(*args, **kwargs)\n            if self.is_alive():\n                raise RuntimeError(f'Could not stop a worker!')\n\n        self._get_result() # this is required to sync user state in some cases (fetch results, at least persistant process)\n",
                                                  "        if self.wait(timeout=timeout):\n            self._get_result()\n        else:\n            self.terminate(*args, **kwargs)\n            if self.is_alive():\n                raise RuntimeError(f'Could not stop a worker!')\n"), 'restart-order')
 br('C13', 'seed-provisional-verdict-cache', (RP, "        allow_remote = True\n        first_not_remote = None", "        cls._cls_check_cache[t] = False\n        allow_remote = True\n        first_not_remote = None"), 'rejected-class-cached')
+br('C14', 'seed2-falsy-state-dropped', (PK, "        state = obj.__getstate__(remote=self._remote)\n", "        state = obj.__getstate__(remote=self._remote)\n        if not state:\n            state = None\n"), 'state-replaced')
+br('C14', 'state-key-popped', (PK, "            state = OrderedDict(state)\n", "            state = OrderedDict(state)\n            state.pop('_cache', None)\n"), 'state-mutated')
+br('C14', 'state-sent-filtered', (PK, "            state = OrderedDict(state)\n", "            state = OrderedDict((k, v) for k, v in state.items() if v is not None)\n"), 'state-replaced')
+ok('c14-state-rewrapped-dict', (PK, "            state = OrderedDict(state)\n", "            state = dict(state)\n"))
 br('C14', 'seed-entry-belief-renamed', (ST, "            assert not hasattr(RemoteState._active_contexts, 'ctxs')", "            assert not hasattr(RemoteState._active_contexts, 'stack')"), 'belief-contradicted')
 br('C15', 'seed-entry-belief-renamed', (ST, "            assert not hasattr(RemoteState._active_contexts, 'ctxs')", "            assert not hasattr(RemoteState._active_contexts, 'iter')"), 'belief-contradicted')
 br('C11', 'seed-ctrl-sock-rebound-to-none', (RM, "            try:\n                self._ctrl_sock.close()\n            except OSError:\n                pass\n\n        logger.details('Closing remote control thread')", "            try:\n                self._ctrl_sock.close()\n            except OSError:\n                pass\n            self._ctrl_sock = None\n\n        logger.details('Closing remote control thread')"), 'socket-rebound')
